@@ -170,6 +170,9 @@ class SCCReader(BaseReader):
     """
 
     def __init__(self, *args, **kw):
+        self._reset_state()
+
+    def _reset_state(self):
         self.caption_stash = CaptionCreator()
         self.time_translator = _SccTimeTranslator()
 
@@ -233,6 +236,7 @@ class SCCReader(BaseReader):
         if not isinstance(content, str):
             raise InvalidInputError("The content is not a unicode string.")
 
+        self._reset_state()
         self.simulate_roll_up = simulate_roll_up
         self.time_translator.offset = offset * 1000000
         # split lines
